@@ -276,8 +276,43 @@ Proof.
   destruct (k0 =? b); [reflexivity|]. apply IH.
 Qed.
 
+Lemma aget_keys_iff : forall {V W} (l : list (Z * V)) (l' : list (Z * W)) b,
+  map fst l' = map fst l -> (aget b l <> None <-> aget b l' <> None).
+Proof.
+  intros V W l l' b H.
+  assert (E : forall X (k : list (Z * X)), aget b k <> None <-> In b (map fst k)).
+  { intros X k. pose proof (aget_none_iff k b) as A. destruct (aget b k).
+    - split; [intros _|intros _; discriminate].
+      destruct (in_dec Z.eq_dec b (map fst k)); [assumption|]. apply A in n. discriminate.
+    - split; [congruence|]. intros Hin. exfalso. apply A; auto. }
+  rewrite !E, H. tauto.
+Qed.
+
 Lemma keys_listing : forall (k : kmap), map fst (listing_of k) = map fst k.
 Proof. intros. unfold listing_of. rewrite map_map. reflexivity. Qed.
+
+Lemma keys_same_stays : forall {V W} (l : list (Z * V)) (l' : list (Z * W)) b,
+  map fst l' = map fst l -> aget b l <> None -> aget b l' <> None.
+Proof. intros V W l l' b H. apply (aget_keys_iff l l' b H). Qed.
+
+Lemma aget_aset_stays : forall {V} (l : list (Z * V)) b b0 v,
+  aget b0 l <> None -> aget b0 (aset b v l) <> None.
+Proof.
+  intros V l b b0 v H. destruct (Z.eq_dec b0 b) as [->|Hne].
+  - rewrite aget_aset_same. discriminate.
+  - rewrite aget_aset_other by assumption. assumption.
+Qed.
+
+Lemma aget_app_stays : forall {V} (l l2 : list (Z * V)) b0,
+  aget b0 l <> None -> aget b0 (l ++ l2) <> None.
+Proof. intros V l l2 b0 H. rewrite aget_app. destruct (aget b0 l); [discriminate|congruence]. Qed.
+
+Lemma listing_same_stays : forall (k k' : kmap) b0,
+  listing_of k' = listing_of k -> aget b0 k <> None -> aget b0 k' <> None.
+Proof.
+  intros k k' b0 H. apply keys_same_stays. rewrite <- !keys_listing, H. reflexivity.
+Qed.
+
 
 (* `bucket_id in self.buckets()` *)
 Lemma listed_iff : forall b (k : kmap), listed b (listing_of k) = match aget b k with Some _ => true | None => false end.
@@ -371,6 +406,10 @@ Record store_ok (B : backend) : Prop := mkStoreOk {
   ok_inv_step : forall c o, b_inv B c -> b_inv B (fst (b_step B c o));
   ok_frame : forall c o, b_inv B c -> lifecycle_write o = false ->
     listing_of (b_map B (fst (b_step B c o))) = listing_of (b_map B c);
+  (* no call other than delete_bucket makes a bucket disappear (whatever its arguments) *)
+  ok_keys_stay : forall c o b0, b_inv B c ->
+    match o with DeleteBucket _ => False | _ => True end ->
+    aget b0 (b_map B c) <> None -> aget b0 (b_map B (fst (b_step B c o))) <> None;
   ok_create : forall c b m, b_inv B c -> aget b (b_map B c) = None ->
     exists c' o m', b_step B c (CreateBucket b m) = (c', Ok o) /\ stored_as m m' /\
                     b_map B c' = b_map B c ++ [(b, (m', []))];
